@@ -24,10 +24,14 @@ def run(rng, tier, want=('C01', 'C10', 'C11', 'C12', 'C13', 'C14')):
     a = native.algopy(); U = a.UTPM
     DPs = [(1, 1), (3, 2)] if tier == 'quick' else [(1, 1), (2, 3), (4, 2), (6, 1)]
     for op in optable.table():
+        if op.only is not None and not (set(op.only) & set(want)): continue
         shape_sets = [tuple(op.shapes)] if (op.nin == 2 and op.kind == 'linalg') else [tuple([s] * op.nin) for s in op.shapes]
         for shapes in shape_sets:
             for (D, P) in DPs:
+                if op.name == 'floordiv[0/0]' and D < 2: continue          # 0/0 with no higher coefficient carries no information (the kernel would shift forever)
                 arrs = [optable.gen_input(rng, D, P, s, op.dom, cplx=op.cplx, kind=op.kind, name=op.name) for s in shapes]
+                if op.name == 'floordiv[0/0]':
+                    for x_ in arrs: x_[1] = numpy.abs(x_[1]) + 0.5
                 case = {'op': op.name, 'D': D, 'P': P, 'shapes': [list(s) for s in shapes], 'inputs': [x.tolist() if not op.cplx else None for x in arrs]}
                 try: r, us = _call(op, arrs)
                 except Exception as e:
